@@ -499,6 +499,9 @@ class Lower:
                     ('Affine', 'new_unchecked'): 100, ('EdwardsAffine', 'new_unchecked'): 100,
                     ('EdwardsProjective', 'new_unchecked'): 101}
             key = (segs[-2] if len(segs) >= 2 else '', fn)
+            mext = re.match(r'F[pq](2|6|12)$', key[0])
+            if mext and fn == 'new':
+                return f"Lit.tup {mext.group(1)} [" + ", ".join(self.low(x) for x in args) + "]"
             if key in tags:
                 return f"Lit.tup {tags[key]} [" + ", ".join(self.low(x) for x in args) + "]"
             return f"Lit.tup 999 [" + ", ".join(self.low(x) for x in args) + "]"
